@@ -153,16 +153,11 @@ theorem snap_mono {scale a b lo hi : F} (hs : isFinite scale = true) (hp : DType
   obtain ⟨kb, yb, hkb, hyb, hhi⟩ := hb
   have hpos := positive_iff hp
   unfold gridIndex at hka hkb
-  have fa : isFinite (div a scale) = true := by
-    have := LawfulFloatOps.round_isSome (div a scale); rw [hka] at this; simpa using this.symm
-  have fb : isFinite (div b scale) = true := by
-    have := LawfulFloatOps.round_isSome (div b scale); rw [hkb] at this; simpa using this.symm
-  have hd := LawfulFloatOps.div_mono a b scale hab hs hpos (notNaN_of_finite fa) (notNaN_of_finite fb)
+  have hd := LawfulFloatOps.div_mono a b scale hab hs hpos
   have hk := LawfulFloatOps.round_mono _ _ ka kb hd hka hkb
   have hy := LawfulFloatOps.ofInt_mono ka kb ya yb hk hya hyb
   rw [hlo, hhi]
-  exact LawfulFloatOps.mul_mono ya yb scale hy hs hpos (LawfulFloatOps.ofInt_finite _ _ hya)
-    (LawfulFloatOps.ofInt_finite _ _ hyb)
+  exact LawfulFloatOps.mul_mono ya yb scale hy hs hpos
 
 theorem isSome_self (x : F) : IsSome (some x) x := by
   unfold IsSome; exact same_refl x
